@@ -701,6 +701,7 @@ EXTERN_FNS = {
     "extract_high_7_bit_value_from_14_bit_value": ("pure", "Midi.extractHigh7"),
     "extract_low_7_bit_value_from_14_bit_value": ("pure", "Midi.extractLow7"),
     "U7": ("id", None), "U14": ("id", None), "U4": ("id", None), "Channel": ("id", None),
+    "u16::from": ("id", None), "u32::from": ("id", None),
     "ControllerNumber": ("id", None), "KeyNumber": ("id", None),
     "extract_type_from_status_byte": ("res", "Midi.extractType"),
     "extract_channel_from_status_byte": ("pure", "Midi.extractChannel"),
@@ -729,6 +730,7 @@ EXPECT_PANICS = {"impossible": "cc14LsbImpossible", "invalid status byte detecte
 FACTORY_FNS = {"control_change": "Midi.mkControlChange F", "from_bytes_unchecked": "F.ofBytesUnchecked"}
 # assert!(..) sites: (owner, function) -> panic site of the model
 ASSERT_PANICS = {("ControlChange14BitMessage", "new"): "cc14MsbAssert",
+                 (None, "build_byte_from_nibbles"): "nibbleDebugAssert",
                  ("ShortMessageFactory", "channel_message"): "categoryAssert",
                  ("ShortMessageFactory", "system_common_message"): "categoryAssert",
                  ("ShortMessageFactory", "system_real_time_message"): "categoryAssert"}
@@ -764,6 +766,8 @@ class Gen:
                 if it["k"] == "trait" and it["name"] in cfg["only_traits"]:
                     kept.append(it)
                 elif it["k"] == "impl" and [it.get("trait"), it.get("type")] in [list(x) for x in cfg.get("trait_impls", [])]:
+                    kept.append(it)
+                elif it["k"] == "fn" and it["fn"]["name"] in cfg.get("only_fns", []):
                     kept.append(it)
                 elif it["k"] == "skipped":
                     kept.append(it)
@@ -1003,6 +1007,28 @@ class Gen:
             bt = self.rtype(e["e"], env, ctx)
             if bt and bt["k"] == "array": return bt["elem"]
             return None
+        return None
+
+    REPR = {"U7": "u8", "U4": "u8", "Channel": "u8", "KeyNumber": "u8", "ControllerNumber": "u8", "U14": "u16"}
+
+    def int_type(self, e, env, ctx):
+        """machine integer type of an expression, where it can be read off syntactically (None otherwise)"""
+        k = e["k"]
+        if k == "cast": return e["to"]
+        if k == "path":
+            t = self.rtype(e, env, ctx)
+            if t and t["k"] == "ref": t = t["inner"]
+            return t["name"] if t and t["k"] == "path" and t["name"] in CAST_MOD else None
+        if k == "mcall" and e["name"] == "get" and not e["args"]:
+            t = self.rtype(e["recv"], env, ctx)
+            if t and t["k"] == "ref": t = t["inner"]
+            return self.REPR.get(t["name"]) if t and t["k"] == "path" else None
+        if k == "call" and e["f"].get("k") == "path" and len(e["f"]["segs"]) == 2 and e["f"]["segs"][1] == "from" and e["f"]["segs"][0] in CAST_MOD:
+            return e["f"]["segs"][0]
+        if k == "binary":
+            return self.int_type(e["a"], env, ctx) or self.int_type(e["b"], env, ctx)
+        if k == "unary":
+            return self.int_type(e["e"], env, ctx)
         return None
 
     def resolve_method(self, recv, name, env, ctx):
@@ -1279,8 +1305,15 @@ class Gen:
                     return k("(decide (%s %s %s))" % (a, lop, b), env2)
                 if op == "&": return k("(%s &&& %s)" % (a, b), env2)
                 if op == ">>": return k("(%s >>> %s)" % (a, b), env2)
-                if op in ("|", "<<", "^"):
-                    raise TErr("operator %s needs the operand width (overflow / sign) and is outside the subset" % op)
+                if op == "|": return k("(%s ||| %s)" % (a, b), env2)
+                if op == "^": return k("(%s ^^^ %s)" % (a, b), env2)
+                if op == "<<":
+                    t = self.int_type(e["a"], env2, ctx)
+                    if t not in CAST_MOD: raise TErr("`<<` on an operand whose width is unknown")
+                    if e["b"]["k"] != "lit" or int(e["b"]["v"]) >= {"u8": 8, "u16": 16, "u32": 32, "u64": 64, "usize": 64}[t]:
+                        raise TErr("`<<` by a non-literal or over-wide amount (would panic in debug builds)")
+                    self.notes.add("`<<` on uN drops the bits shifted out: (a <<< k) % 2^N")
+                    return k("((%s <<< %s) %% %d)" % (a, b, CAST_MOD[t]), env2)
                 if op == "+" and e.get("index_arith"):
                     self.notes.add("`+=` on a usize index local is unbounded addition on Nat (the index stays below the array length, far from overflow)")
                     return k("(%s + %s)" % (a, b), env2)
@@ -1299,7 +1332,9 @@ class Gen:
                 def kae(vs, env2):
                     return paren(["if (%s == %s) then" % (vs[0], vs[1])] + ind(k("()", env2)) + ["else"] + ind([".error .%s" % ASSERT_PANICS[site]]))
                 return self.seq(e["args"], env, ctx, kae)
-            if e["name"] != "assert" or len(e["args"]) != 1: raise TErr("macro %s! is outside the subset" % e["name"])
+            if e["name"] == "debug_assert" and len(e["args"]) == 1:
+                self.notes.add("debug_assert! is modelled as active (the harness builds the crate with debug assertions)")
+            elif e["name"] != "assert" or len(e["args"]) != 1: raise TErr("macro %s! is outside the subset" % e["name"])
             if site not in ASSERT_PANICS: raise TErr("assert! in %s::%s has no panic site in the model" % site)
             def ka(c, env2):
                 return paren(["if %s then" % c] + ind(k("()", env2)) + ["else"] + ind([".error .%s" % ASSERT_PANICS[site]]))
@@ -1745,7 +1780,10 @@ FILES = [("control_change_14_bit_message.rs", "CCMsg", {}),
          ("parameter_number_message_scanner.rs", "PNScan", {}),
          ("polling_parameter_number_message_scanner.rs", "PollScan", {}),
          # the default methods of the two traits (everything else in these files stays hand-modelled)
-         ("short_message.rs", "ShortMsg", {"only_traits": ["ShortMessage"], "tuple3_bytes": True}),
+         ("short_message.rs", "ShortMsg", {"only_traits": ["ShortMessage"], "tuple3_bytes": True,
+                                           "only_fns": ["build_mtc_quarter_frame_data_byte", "extract_low_nibble_from_byte",
+                                                        "extract_high_nibble_from_byte", "build_byte_from_nibbles"]}),
+         ("bit_util.rs", "BitUtil", {}),
          ("short_message_factory.rs", "FactoryDefaults", {"only_traits": ["ShortMessageFactory"], "tuple3_bytes": True,
                                                           "skip_fns": ["from_bytes"]}),
          # the two trait impls of StructuredShortMessage (the enum itself is the hand-written SMsg)
